@@ -55,6 +55,33 @@ def planar_distance(segs, u, v):
     return best
 
 
+def chain_point(segs, s):
+    """(u, v, dip) of the surface point at arclength s of the planar chain"""
+    sx, sy = 0.0, 0.0
+    for (L, t1, t2) in segs:
+        if s <= L or (L, t1, t2) == segs[-1]:
+            if abs(t2 - t1) < 1e-9:
+                return sx + s * math.cos(t1), sy + s * math.sin(t1), t1
+            sgn = 1.0 if t2 > t1 else -1.0
+            R = L / abs(t2 - t1)
+            n1 = nrm(t1)
+            cx, cy = sx + sgn * R * n1[0], sy + sgn * R * n1[1]
+            th = t1 + (t2 - t1) * s / L
+            n = nrm(th)
+            return cx - sgn * R * n[0], cy - sgn * R * n[1], th
+        # end of this piece
+        if abs(t2 - t1) < 1e-9:
+            sx, sy = sx + L * math.cos(t1), sy + L * math.sin(t1)
+        else:
+            sgn = 1.0 if t2 > t1 else -1.0
+            R = L / abs(t2 - t1)
+            n1, n2 = nrm(t1), nrm(t2)
+            cx, cy = sx + sgn * R * n1[0], sy + sgn * R * n1[1]
+            sx, sy = cx - sgn * R * n2[0], cy - sgn * R * n2[1]
+        s -= L
+    return sx, sy, segs[-1][2]
+
+
 def run(chk):
     chk.rule = ("Cartesian slabs and faults with a straight 2-point trench (any position, azimuth, length, dip side), 1-3 segments "
                 "(straight: equal top and bottom dip; arcs: dip varying linearly), dips in (5,170) degrees, thickness pairs, top "
@@ -63,7 +90,9 @@ def run(chk):
                 "perpendicular to the trench); (b) membership (tag) vs the four-clause definition; points closer than 50 m to a "
                 "membership boundary or to a junction of two pieces are counted as boundary-ambiguous. non-trivial = a point whose "
                 "foot lies inside the surface (finite distances)")
-    chk.corr["kind"] = "extracted specification SlabSpec.planar_distance vs World::distance_to_plane, tolerance 1 m + 1e-6 * total length (not bit-exact: the implementation works in a rotated 3-D frame with a Newton foot)"
+    chk.corr["kind"] = ("bit-exact: SlabModel.distance_point_from_curved_planes vs World::distance_to_plane, and SlabFeature (membership, "
+                        "composition) vs World::properties with the culling hook off; in addition the extracted specification "
+                        "SlabSpec.planar_distance vs the implementation within 1 mm + 1e-9 * total length")
     chk.assumptions = ["accuracy of the Newton closest-point iteration on the trench is not a theorem; the planar construction uses the "
                        "exact orthogonal foot, distances are compared with an absolute tolerance of 1 m + 1e-6 * scale",
                        "curved trenches and spherical worlds: covered by C07/C08/C13 oracles, not by this closed form"]
@@ -74,6 +103,7 @@ def run(chk):
     quick = chk.tier == "quick"
     cs = CaseSet("c06")
     plan = []
+    model_dist = []
     for wi in range(50 if quick else 600):
         kind = rng.choice(["subducting plate", "fault"])
         f = g.line_feature("line", kind, False, straight=True, uniform_sections=True, allow_mass_conserving=False)
@@ -84,7 +114,6 @@ def run(chk):
                 s.pop(k, None)
         f["composition models"] = [{"model": "uniform", "compositions": [0]}]
         wj = {"version": "1.1", "features": [f]}
-        slot = cs.add_world(wj, model=False)
         P0, P1 = f["coordinates"]
         tx, ty = P1[0] - P0[0], P1[1] - P0[1]
         TL = math.hypot(tx, ty)
@@ -98,11 +127,25 @@ def run(chk):
         segs = [(s["length"], math.radians(s["angle"][0]), math.radians(s["angle"][-1])) for s in f["segments"]]
         total = sum(s[0] for s in segs)
         thick = max(max(s["thickness"]) for s in f["segments"])
+        if kind == "fault" and wi % 4 == 0:
+            # a fault that starts below the surface and ends at a finite max depth inside its own reach
+            f["min depth"] = float(round(rng.uniform(2e4, 8e4)))
+            f["max depth"] = float(round(f["min depth"] + rng.uniform(0.3, 0.8) * total * math.sin(segs[0][1])))
+            m0, mx = f["min depth"], f["max depth"]
+        slot = cs.add_world(wj)
+        lf_ml = cs.worlds[slot][2].line_terms.get("line") if cs.model_ok[slot] else None
         for qi in range(30):
             t = rng.uniform(-0.05, 1.05)
             reach = 1.1 * (total + thick)
-            u = rng.uniform(-reach, reach)
-            v = rng.uniform(-1e4, reach)
+            if qi % 3 == 0:
+                # aimed at the surface: a point at a random arclength, offset along the normal by up to 1.3 thicknesses
+                su, sv, dip = chain_point(segs, rng.uniform(-0.02, 1.02) * total)
+                w_off = rng.uniform(-0.7, 0.7) * thick if kind == "fault" else rng.uniform(-0.3, 1.3) * thick
+                u, v = su + w_off * nrm(dip)[0], sv + w_off * nrm(dip)[1]
+                t = rng.uniform(0.02, 0.98)
+            else:
+                u = rng.uniform(-reach, reach)
+                v = rng.uniform(-1e4, reach)
             d = m0 + v
             if d < 0:
                 continue
@@ -113,11 +156,20 @@ def run(chk):
             i_d = cs.raw("dist %d %s %s %s %s line" % (slot, fhex(x), fhex(y), fhex(TOP - d), fhex(d)),
                          "let () = out_planar (planar_distance num %s %s %s)" % (pcs, common.ml(u), common.ml(v)),
                          {"kind": "dist", "slot": slot, "world": wj, "pos": [x, y, TOP - d], "depth": d})
-            i_t = cs.p3(slot, pos, d, [[4, 0, 0]])
+            i_t = cs.p3(slot, pos, d, [[4, 0, 0], [2, 0, 0]])
+            if lf_ml is not None:
+                # the Gallina model of distance_point_from_curved_planes (SlabModel.v), bit for bit
+                i_m = cs.raw("dist %d %s %s %s %s line" % (slot, fhex(x), fhex(y), fhex(TOP - d), fhex(d)),
+                             "let () = (let lf = %s in let r = distance_point_from_curved_planes n ((%s, %s), %s) lf.lf_dip lf.lf_coords (lf_geom lf) ((%s +. %s) -. lf.lf_min) (bezier_build n lf.lf_coords) in out_vec [r.pd_distance; r.pd_along])"
+                             % (lf_ml, common.ml(x), common.ml(y), common.ml(TOP - d), common.ml(TOP - d), common.ml(d)),
+                             {"kind": "dist", "slot": slot, "world": wj, "pos": [x, y, TOP - d], "depth": d})
+                model_dist.append(i_m)
             plan.append((i_d, i_t, f, segs, t, u, v, d, m0, mx, total, kind))
     impl, model = cs.run()
     chk.evaluations = len(impl)
     oracle_mismatch = 0
+    spec_lines = set(pl[0] for pl in plan)
+    bad = chk.correspond(impl, model, cs, max_ulp=0, skip=spec_lines)
     viol = []
     worst = 0.0
     for (i_d, i_t, f, segs, t, u, v, d, m0, mx, total, kind) in plan:
@@ -135,7 +187,7 @@ def run(chk):
                 oracle_mismatch += 1
         spec = spec_c if 0.0 < t < 1.0 else None
         scale = total
-        tol = 1.0 + 1e-6 * scale
+        tol = 1e-3 + 1e-9 * scale
         if spec is None:
             if math.isfinite(a[0]) and 0.001 < t < 0.999:
                 # the implementation found a foot although the construction has none: only near piece junctions
@@ -155,11 +207,7 @@ def run(chk):
                 viol.append(("no distance reported for a point whose foot lies inside the slab surface", dsc))
                 continue
             worst = max(worst, abs(a[0] - exp_dist), abs(a[1] - along))
-            chk.corr["cases"] += 1
-            if abs(a[0] - exp_dist) <= tol and abs(a[1] - along) <= tol:
-                chk.corr["agree"] += 1
-            else:
-                chk.corr["disagreements"] += 1
+            chk.counters["specification comparisons"] = chk.counters.get("specification comparisons", 0) + 1
             if abs(a[0] - exp_dist) > tol or abs(a[1] - along) > tol:
                 if min(frac, 1 - frac) * segs[k][0] < 50.0:
                     chk.count("boundary-ambiguous (junction / end of surface)")
@@ -193,4 +241,9 @@ def run(chk):
         chk.sample({"query": cs.probe[pl[0]][:140], "answer": impl[pl[0]], "spec": model[pl[0]]})
     for what, d in viol[:5]:
         chk.violation(what, d)
+    if bad and not viol:
+        for i in bad[:3]:
+            dsc = cs.describe(i)
+            dsc["impl"], dsc["model"] = impl[i], model[i]
+            chk.violation("correspondence SlabModel.v/SlabFeature.v <-> implementation broken", dsc, found_input=False)
     cs.cleanup()
